@@ -78,6 +78,15 @@ def step (s : St) (fs : List String) : St × String :=
         let shown := (rel.map fun w => w.1 ++ ":" ++ w.2).toArray.qsort (· < ·) |>.toList
         (s, "ok|-|" ++ ",".intercalate shown)
       | none => (s, "bad-op")
+  | ["nsrotatebk", p] =>
+      -- the same with backup = true (`Confine.rotation_backup_writes_confined`)
+      match parseHex? p with
+      | some p =>
+        if (nsOrd s p).isNone then (s, "bad-op") else
+        let rel := (rotationWritesBackup "").filter (·.1 == "put")
+        let shown := (rel.map fun w => w.1 ++ ":" ++ w.2).toArray.qsort (· < ·) |>.toList
+        (s, "ok|-|" ++ ",".intercalate shown)
+      | none => (s, "bad-op")
   | ["aliascase"] => (s, "ok")
   | ["aliastoken", nsB, nsA] =>
       -- auth/token/create in namespace B naming the policy "../<uuid of namespace A>/p": policy names are looked up under
